@@ -27,4 +27,11 @@ let () =
                | _ -> res_s (fun _ -> "") r)) in
         rs ^ "\t" ^ cost_s c
     | _ -> failwith "deccost: args");
+  (* cautious SIZE HINT -> ok N | panic W : the model's hint::cautious *)
+  reg_untyped "cautious" (fun args -> match args with
+    | [size; hint] -> (match M.cautious (n_of_string size) (n_of_string hint) with
+        | M.Ok n -> "ok " ^ string_of_n n
+        | M.Err (k, m) -> "err " ^ kind_s k ^ " " ^ msg_s m
+        | M.Panic w -> "panic " ^ string_of_n w)
+    | _ -> failwith "cautious: args");
   reg_typed "fam" (fun t _ -> bool_s (M.fam (t ())))
